@@ -35,7 +35,8 @@ CONSTANTS NT,        \* thread labels 1..NT; every label is one thread generatio
           TMin, TMax, \* extremes of the value type (maxer / miner)
           StrictExt, \* TRUE: value() = strict comparison against an extreme-initialised result (pinned commit)
           Torn,      \* TRUE: split mode also separates the two plain stores (version, value) of a maxer/miner period switch
-          VerFirst   \* TRUE: on a period switch the slot's version is stored before its value (pinned commit)
+          VerFirst,  \* TRUE: on a period switch the slot's version is stored before its value
+          IdFirst    \* TRUE: ~CompactEnumerableThreadLocal releases its instance id BEFORE it clears its offset (FALSE: pinned commit)
 
 VARIABLES kind,      \* "adder" | "summer" | "maxer" | "miner" | "cetl" | "etl"
           npl,       \* instances per cache line (NUM_PER_CACHELINE); 1 for "etl"
@@ -53,11 +54,12 @@ VARIABLES kind,      \* "adder" | "summer" | "maxer" | "miner" | "cetl" | "etl"
           pend,      \* split mode: count in progress per thread
           rd,        \* split mode: the reader
           cseq, cdone, \* split mode ghost: values counted per (lc, t) in order / how many completed
+          dt,        \* split destructor: the walk over the thread slots in progress
           ev         \* ghost: the API call this step performed
 
 impl  == <<tst, tid, talloc, ialloc, obj, stor, cache, nextEid, nextLc>>
 ghost == <<g, used, faddr>>
-conc  == <<pend, rd, cseq, cdone>>
+conc  == <<pend, rd, cseq, cdone, dt>>
 vars  == <<kind, npl, impl, ghost, conc, ev>>
 
 Thr   == 1..NT
@@ -88,6 +90,7 @@ GZero    == [s |-> 0, n |-> 0, p |-> {}]
 NoPend   == [o |-> 0, v |-> 0, item |-> <<0, 0>>, wr |-> 0]     \* wr: 0 nothing stored yet, 1 first of two stores done, 2 stored
 ZeroT    == [t \in Thr |-> 0]
 NoRd     == [on |-> FALSE, fin |-> FALSE, o |-> 0, lc |-> 0, todo |-> {}, a |-> 0, b |-> 0, has |-> FALSE, lo |-> ZeroT, hi |-> ZeroT]
+NoDt     == [on |-> FALSE, st |-> 0, off |-> 0, iid |-> -1, todo |-> {}]
 NoEv     == [op |-> "", t |-> 0, o |-> 0, p |-> 0, v |-> 0]
 
 \* ---- id allocator at its L1: LIFO free list, otherwise the next fresh id
@@ -112,7 +115,8 @@ Live == {t \in Thr : tst[t] = "live"}
 LiveObj == {o \in Obj : obj[o].live}
 ObjOf(lc) == CHOOSE o \in Obj : obj[o].live /\ obj[o].lc = lc
 LcLive(lc) == \E o \in Obj : obj[o].live /\ obj[o].lc = lc
-Quiescent == ~rd.on /\ \A t \in Thr : pend[t].o = 0
+Quiet0 == ~rd.on /\ \A t \in Thr : pend[t].o = 0          \* no count / read in progress
+Quiescent == Quiet0 /\ ~dt.on                              \* ... and no destructor walk either
 
 \* initial values (a record, so that trace validation can re-initialise between executions)
 I0 == [tst |-> [t \in Thr |-> "new"], tid |-> [t \in Thr |-> -1],
@@ -134,7 +138,7 @@ InitFor(k, n) ==
   /\ nextEid = 1 /\ nextLc = 1
   /\ g = I0.g /\ used = I0.used /\ faddr = I0.faddr
   /\ pend = I0.pend /\ rd = NoRd
-  /\ cseq = I0.cseq /\ cdone = I0.cdone
+  /\ cseq = I0.cseq /\ cdone = I0.cdone /\ dt = NoDt
   /\ ev = NoEv
 
 \* ------------------------------------------------------------------ threads
@@ -167,7 +171,7 @@ StorWithFresh(F) ==
   IF F.neweid THEN [stor EXCEPT ![F.st] = [eid |-> nextEid, ens |-> FALSE, dead |-> FALSE, cell |-> [x \in {} |-> ZeroCell]]] ELSE stor
 
 Create(o) ==
-  /\ Quiescent /\ ~obj[o].live /\ nextLc <= MaxGen
+  /\ Quiet0 /\ ~obj[o].live /\ nextLc <= MaxGen
   /\ LET F == FreshIdent
      IN /\ obj' = [obj EXCEPT ![o] = [live |-> TRUE, lc |-> nextLc, iid |-> F.iid, st |-> F.st, off |-> F.off, ver |-> 0]]
         /\ ialloc' = F.ial
@@ -176,7 +180,7 @@ Create(o) ==
   /\ nextLc' = nextLc + 1
   /\ rd' = NoRd
   /\ ev' = [NoEv EXCEPT !.op = "create", !.o = o]
-  /\ UNCHANGED <<kind, npl, tst, tid, talloc, cache, ghost, pend, cseq, cdone>>
+  /\ UNCHANGED <<kind, npl, tst, tid, talloc, cache, ghost, pend, cseq, cdone, dt>>
 
 \* ~CompactEnumerableThreadLocal: value[offset] = T() in every slot for_each reaches, then release the id
 \* ~EnumerableThreadLocal: the storage is freed
@@ -190,7 +194,7 @@ Destroy(o) ==
   /\ obj' = [obj EXCEPT ![o] = NoObj]
   /\ rd' = NoRd
   /\ ev' = [NoEv EXCEPT !.op = "destroy", !.o = o]
-  /\ UNCHANGED <<kind, npl, tst, tid, talloc, cache, nextEid, nextLc, ghost, pend, cseq, cdone>>
+  /\ UNCHANGED <<kind, npl, tst, tid, talloc, cache, nextEid, nextLc, ghost, pend, cseq, cdone, dt>>
 
 SwapIdent(ob, a, b) ==
   [ob EXCEPT ![a] = [ob[b] EXCEPT !.ver = ob[a].ver], ![b] = [ob[a] EXCEPT !.ver = ob[b].ver]]
@@ -201,7 +205,7 @@ MoveAssign(a, b) ==
   /\ obj' = SwapIdent(obj, a, b)
   /\ rd' = NoRd
   /\ ev' = [NoEv EXCEPT !.op = "move", !.o = a, !.p = b]
-  /\ UNCHANGED <<kind, npl, tst, tid, talloc, ialloc, stor, cache, nextEid, nextLc, ghost, pend, cseq, cdone>>
+  /\ UNCHANGED <<kind, npl, tst, tid, talloc, ialloc, stor, cache, nextEid, nextLc, ghost, pend, cseq, cdone, dt>>
 
 \* T a(std::move(b)): a is default constructed (a fresh identity = a new logical counter), then swapped
 MoveCtor(a, b) ==
@@ -215,7 +219,33 @@ MoveCtor(a, b) ==
   /\ nextLc' = nextLc + 1
   /\ rd' = NoRd
   /\ ev' = [NoEv EXCEPT !.op = "mctor", !.o = a, !.p = b]
-  /\ UNCHANGED <<kind, npl, tst, tid, talloc, cache, ghost, pend, cseq, cdone>>
+  /\ UNCHANGED <<kind, npl, tst, tid, talloc, cache, ghost, pend, cseq, cdone, dt>>
+
+\* ~CompactEnumerableThreadLocal as its steps: the walk that writes T() at the offset of every slot, one slot per
+\* step, and the release of the instance id - after the walk (pinned commit) or before it (IdFirst).  The object is
+\* dead from the first step on; other threads go on constructing / counting / reading OTHER counters meanwhile.
+DestroyBegin(o) ==
+  /\ Quiet0 /\ ~dt.on /\ obj[o].live /\ ~IsEtl
+  /\ dt' = [on |-> TRUE, st |-> obj[o].st, off |-> obj[o].off, iid |-> obj[o].iid, todo |-> ScanAll(obj[o].st)]
+  /\ ialloc' = IF IdFirst THEN FreeId(ialloc, obj[o].iid) ELSE ialloc
+  /\ obj' = [obj EXCEPT ![o] = NoObj]
+  /\ ev' = [NoEv EXCEPT !.op = "dbeg", !.o = o]
+  /\ UNCHANGED <<kind, npl, tst, tid, talloc, stor, cache, nextEid, nextLc, ghost, pend, rd, cseq, cdone>>
+
+DestroyStep ==
+  /\ dt.on /\ dt.todo # {}
+  /\ LET i == CHOOSE j \in dt.todo : \A k \in dt.todo : j <= k
+     IN /\ stor' = [stor EXCEPT ![dt.st].cell = ZeroOff(@, {i}, dt.off)]
+        /\ dt' = [dt EXCEPT !.todo = @ \ {i}]
+  /\ ev' = [NoEv EXCEPT !.op = "dstep"]
+  /\ UNCHANGED <<kind, npl, tst, tid, talloc, ialloc, obj, cache, nextEid, nextLc, ghost, pend, rd, cseq, cdone>>
+
+DestroyEnd ==
+  /\ dt.on /\ dt.todo = {}
+  /\ ialloc' = IF IdFirst THEN ialloc ELSE FreeId(ialloc, dt.iid)
+  /\ dt' = NoDt
+  /\ ev' = [NoEv EXCEPT !.op = "dend"]
+  /\ UNCHANGED <<kind, npl, tst, tid, talloc, obj, stor, cache, nextEid, nextLc, ghost, pend, rd, cseq, cdone>>
 
 \* ------------------------------------------------------------------ local()
 \* fast path: the per-thread cache holds [eid, item] of the storage used last; slow path: take the
@@ -252,7 +282,7 @@ GAdd(r, v) == [s |-> r.s + v, n |-> r.n + 1, p |-> r.p \cup {v}]
 
 \* counter << v  (atomic: histories)
 Count(t, o, v) ==
-  /\ Quiescent /\ tst[t] = "live" /\ obj[o].live
+  /\ Quiet0 /\ tst[t] = "live" /\ obj[o].live
   /\ LET L == Lookup(t, o)
      IN /\ LookupEffect(t, o, L)
         /\ stor' = Written(Ensured(L, o), L.item, obj[o].off, v, obj[o].ver)
@@ -262,7 +292,7 @@ Count(t, o, v) ==
 
 \* a bare local() (no count)
 Local(t, o) ==
-  /\ Quiescent /\ tst[t] = "live" /\ obj[o].live
+  /\ Quiet0 /\ tst[t] = "live" /\ obj[o].live
   /\ LET L == Lookup(t, o)
      IN /\ LookupEffect(t, o, L)
         /\ stor' = Ensured(L, o)
@@ -279,11 +309,11 @@ Reset(o) ==
   /\ cdone' = [cdone EXCEPT ![obj[o].lc] = ZeroT]
   /\ rd' = NoRd
   /\ ev' = [NoEv EXCEPT !.op = "reset", !.o = o]
-  /\ UNCHANGED <<kind, npl, tst, tid, talloc, ialloc, cache, nextEid, nextLc, used, faddr, pend>>
+  /\ UNCHANGED <<kind, npl, tst, tid, talloc, ialloc, cache, nextEid, nextLc, used, faddr, pend, dt>>
 
 \* pure reads (quiescent): only the ghost event changes; what they return are the operators below
 ReadOp(name, o) ==
-  /\ Quiescent /\ obj[o].live
+  /\ Quiet0 /\ obj[o].live
   /\ ev' = [NoEv EXCEPT !.op = name, !.o = o]
   /\ UNCHANGED <<kind, npl, impl, ghost, conc>>
 
@@ -311,7 +341,7 @@ CountBegin(t, o, v) ==
   /\ g' = [g EXCEPT ![obj[o].lc][t] = GAdd(@, v)]
   /\ cseq' = [cseq EXCEPT ![obj[o].lc][t] = Append(@, v)]
   /\ ev' = [NoEv EXCEPT !.op = "cbeg", !.t = t, !.o = o, !.v = v]
-  /\ UNCHANGED <<kind, npl, tst, ialloc, obj, nextEid, nextLc, rd, cdone>>
+  /\ UNCHANGED <<kind, npl, tst, ialloc, obj, nextEid, nextLc, rd, cdone, dt>>
 
 \* the store(s) of a count.  `local = local + v` is one plain store of the single writer; the first count of a
 \* maxer/miner in a new period is TWO plain stores (local.version, local.value) between which a reader can look
@@ -328,21 +358,21 @@ CountWrite(t) ==
                         ELSE Written(stor, pend[t].item, f, pend[t].v, obj[o].ver)
              /\ pend' = [pend EXCEPT ![t].wr = 2]
   /\ ev' = [NoEv EXCEPT !.op = "cwr", !.t = t]
-  /\ UNCHANGED <<kind, npl, tst, tid, talloc, ialloc, obj, cache, nextEid, nextLc, ghost, rd, cseq, cdone>>
+  /\ UNCHANGED <<kind, npl, tst, tid, talloc, ialloc, obj, cache, nextEid, nextLc, ghost, rd, cseq, cdone, dt>>
 
 CountEnd(t) ==
   /\ pend[t].o # 0 /\ pend[t].wr = 2
   /\ cdone' = [cdone EXCEPT ![obj[pend[t].o].lc][t] = @ + 1]
   /\ pend' = [pend EXCEPT ![t] = NoPend]
   /\ ev' = [NoEv EXCEPT !.op = "cend", !.t = t]
-  /\ UNCHANGED <<kind, npl, impl, ghost, rd, cseq>>
+  /\ UNCHANGED <<kind, npl, impl, ghost, rd, cseq, dt>>
 
 ReadBegin(o) ==
   /\ ~rd.on /\ obj[o].live
   /\ rd' = [on |-> TRUE, fin |-> FALSE, o |-> o, lc |-> obj[o].lc, todo |-> ScanAll(obj[o].st),
             a |-> IF IsCmp THEN Ext ELSE 0, b |-> 0, has |-> FALSE, lo |-> cdone[obj[o].lc], hi |-> ZeroT]
   /\ ev' = [NoEv EXCEPT !.op = "rbeg", !.o = o]
-  /\ UNCHANGED <<kind, npl, impl, ghost, pend, cseq, cdone>>
+  /\ UNCHANGED <<kind, npl, impl, ghost, pend, cseq, cdone, dt>>
 
 ReadStep ==
   /\ rd.on /\ rd.todo # {}
@@ -354,13 +384,13 @@ ReadStep ==
                     THEN [rd EXCEPT !.todo = @ \ {i}, !.a = c.a, !.has = TRUE] ELSE [rd EXCEPT !.todo = @ \ {i}])
               ELSE [rd EXCEPT !.todo = @ \ {i}, !.a = @ + c.a, !.b = @ + c.b]
   /\ ev' = [NoEv EXCEPT !.op = "rstep"]
-  /\ UNCHANGED <<kind, npl, impl, ghost, pend, cseq, cdone>>
+  /\ UNCHANGED <<kind, npl, impl, ghost, pend, cseq, cdone, dt>>
 
 ReadEnd ==
   /\ rd.on /\ rd.todo = {}
   /\ rd' = [rd EXCEPT !.on = FALSE, !.fin = TRUE, !.hi = [t \in Thr |-> Len(cseq[rd.lc][t])]]
   /\ ev' = [NoEv EXCEPT !.op = "rend", !.o = rd.o]
-  /\ UNCHANGED <<kind, npl, impl, ghost, pend, cseq, cdone>>
+  /\ UNCHANGED <<kind, npl, impl, ghost, pend, cseq, cdone, dt>>
 
 (***************************************************************************)
 (* L1.  GTot = what the history says was contributed to lc in the current  *)
@@ -426,7 +456,7 @@ ReadBoundsOK(Q, lo, hi, R) ==
 (***************************************************************************)
 (* The clauses on the model (obs := what the model computes).              *)
 (***************************************************************************)
-QuiescentExact == Quiescent => \A o \in LiveObj : QuiescentExactOK(obj[o].lc, ValueOf(o))
+QuiescentExact == Quiet0 => \A o \in LiveObj : QuiescentExactOK(obj[o].lc, ValueOf(o))
 ExtremeOfCurrentPeriod == Quiescent => \A o \in LiveObj : ExtremeOK(obj[o].lc, ValueOf(o))
 ExtremeExceptOnlyTypeExtreme == Quiescent => \A o \in LiveObj : H5Witness(obj[o].lc, ValueOf(o)) \/ ExtremeOK(obj[o].lc, ValueOf(o))
 ContributionsOfDeadThreadsKept ==
@@ -434,7 +464,7 @@ ContributionsOfDeadThreadsKept ==
 ForEachCoversEverUsed == \A o \in LiveObj : CoversOK(obj[o].lc, ScanAll(obj[o].st), tid)
 ForEachAliveExactlyLive == \A o \in LiveObj : AliveOK(obj[o].lc, ScanAlive(obj[o].st), tid)
 NewCounterStartsAtZero ==
-  Quiescent => \A o \in LiveObj : (used[obj[o].lc] = {}) =>
+  Quiet0 => \A o \in LiveObj : (used[obj[o].lc] = {}) =>
      /\ StartsAtZeroOK(ValueOf(o))
      /\ \A i \in ScanAll(obj[o].st) : CellAt(obj[o].st, i, obj[o].off) = ZeroCell
 LocalIsPrivateAndStable ==
